@@ -21,13 +21,17 @@ PROP = dict(
           "seq: sequences of getter calls on ONE object (what a getter answers is a function of the token list and the getter alone, so each call "
           "must answer as on a fresh object): every ordered pair of {10 getter forms: get_multi<string/int32/double>, get<string> with/without flag, "
           "get<bool>, get<int32>/get<double> with/without default} x {every supplied name, 3 names not supplied, every positional index up to 2 "
-          "past the end} plus assert_none_unused on 7 token lists, every ordered triple of the getter forms on an absent name / an index past the "
+          "past the end} plus assert_none_unused on 11 token lists (4 of them with an option repeated 2..3 times whose first / middle / last value is not an integer), every ordered triple of the getter forms on an absent name / an index past the "
           "end, and rapidcheck sequences of 1..10 calls (all 8 integer types, 4 formats) on generated token lists, against the classifier, the "
-          "numeral/float references and a three-state used-flag model (a value whose conversion failed may or may not count as read). "
+          "numeral/float references and a three-state used-flag model kept PER INSTANCE of a repeated option (a value whose conversion failed, and the values before it in the same failed "
+          "typed get_multi call, may or may not count as read; the instances behind the first value that must be rejected were never looked at by that call and stay unread, so assert_none_unused "
+          "must still throw unless something else read them). A quarter of the random sequences use an option repeated 2..5 times with numerals mixed with texts a typed getter rejects "
+          "(or that fit only some integer types), other tokens in between, and address a typed get_multi to it before the other calls. "
           "Non-trivial: a token list that mixes named and positional arguments, a command line with quoting and >= 2 tokens, a numeral within 2 of "
           "a type boundary (or of 2^64 - 2^k) or with garbage, a float text with a fraction/exponent or garbage, every absent-argument case, a "
-          "used-subset case with >= 2 handles and a non-empty read set, a getter sequence that addresses some name or index at least twice. Distinct = distinct case encodings (hash)."),
-    assumptions=["seq: a scalar getter addressed to an option that was given several times is executed as the get_multi of the same type (the statement does not say what a scalar getter does with a repeated option)",
+          "used-subset case with >= 2 handles and a non-empty read set, a getter sequence that addresses some name or index at least twice or in which a typed get_multi failed before the last instance of a repeated option. Distinct = distinct case encodings (hash)."),
+    assumptions=["seq: a typed get_multi that throws has read nothing behind the instance whose conversion failed (it cannot know those texts are fine without converting them, and it returned none of them)",
+                 "seq: a scalar getter addressed to an option that was given several times is executed as the get_multi of the same type (the statement does not say what a scalar getter does with a repeated option)",
                  "no NUL bytes in tokens or command lines; no stand-alone empty quoted token on a command line (DESIGN section 6 item 5)",
                  "command lines use the quoting subset on which the POSIX shell and phosg agree (no backslash inside '...'; inside \"...\" a backslash only before \" \\ $ `)",
                  "a complete numeral is what strtoull/strtod accept (leading blanks and '+' included, DESIGN section 6 item 7); 0b-prefixed texts are excluded for IntFormat::DEFAULT",
